@@ -52,15 +52,48 @@ def _binnify(case):
     return None
 
 
-def _impl_binsize(bins):
+def _forms(bins):
+    """the same bin table in equally valid FORMS: chrom as categorical / object strings / categorical with categories that have
+    no rows (a table filtered to fewer chromosomes keeps them); start/end as int64 / int32 / unsigned integers"""
     df = gen.bins_df(bins)
-    r = impl(util.get_binsize, df)
-    return None if r is None else int(r)
+    yield "categorical,int64", df
+    yield "object,int64", gen.bins_df(bins, categorical=False)
+    d2 = df.copy()
+    cats = [str(c) for c in df["chrom"].cat.categories]
+    d2["chrom"] = pd.Categorical([str(x) for x in df["chrom"]], categories=["unused_first"] + cats + ["unused_last"], ordered=True)
+    yield "categorical with unobserved categories,int64", d2
+    hi = max(b[2] for b in bins)
+    for dt in ("int32", "uint32", "uint64") + (("uint16",) if hi < 2 ** 16 else ()) + (("uint8",) if hi < 2 ** 8 else ()):
+        d3 = df.copy()
+        d3["start"] = d3["start"].astype(dt)
+        d3["end"] = d3["end"].astype(dt)
+        yield f"categorical,{dt}", d3
+
+
+def _impl_binsize(bins):
+    """get_binsize on every form of the table: the answers must agree (returns the common answer)"""
+    out = None
+    first = True
+    for label, df in _forms(bins):
+        r = impl(util.get_binsize, df)
+        r = None if r is None else int(r)
+        if first:
+            out, first, l0 = r, False, label
+        elif r != out:
+            raise FormDiffers({"what": "get_binsize depends on the form of the bin table", "forms": {l0: out, label: r}})
+    return out
+
+
+class FormDiffers(Exception):
+    pass
 
 
 def _binsize_truthful(case):
     bins = case["bins"]
-    b = _impl_binsize(bins)
+    try:
+        b = _impl_binsize(bins)
+    except FormDiffers as e:
+        return dict(e.args[0], mismatch=True)
     if b is None:
         return {"stats": {"reported_none": 1}}
     m = drv().ask("C20.uniform", bins=bins, b=b)
@@ -72,7 +105,10 @@ def _binsize_truthful(case):
 
 def _binsize_unit(case):
     bins = case["bins"]
-    b = _impl_binsize(bins)
+    try:
+        b = _impl_binsize(bins)
+    except FormDiffers as e:
+        return dict(e.args[0], mismatch=True)
     m = drv().ask("C20.bininfo", bins=bins)
     if b != m["binsize"]:
         return {"mismatch": True, "impl": b, "model": m["binsize"], "legacy_model": m["legacy"]}
@@ -81,13 +117,13 @@ def _binsize_unit(case):
 
 def _chromsizes(case):
     bins = case["bins"]
-    df = gen.bins_df(bins)
-    cs = impl(util.get_chromsizes, df)
     names = [gen.chromname(c) for c in range(max(b[0] for b in bins) + 1)]
-    got = [[names.index(str(k)), int(v)] for k, v in cs.items()]
     m = drv().ask("C20.bininfo", bins=bins)
-    if got != m["chromsizes"]:
-        return {"mismatch": True, "impl": got, "model": m["chromsizes"]}
+    for label, df in _forms(bins):
+        cs = impl(util.get_chromsizes, df)
+        got = [[names.index(str(k)) if str(k) in names else str(k), (int(v) if v == v else None)] for k, v in cs.items()]
+        if got != m["chromsizes"] or cs.dtype.kind not in "iu":
+            return {"mismatch": True, "form": label, "impl": got, "impl_dtype": str(cs.dtype), "model": m["chromsizes"]}
     if m["valid"] and sorted(m["chromsizes"]) != sorted(m["group_last_stops"]):
         raise AssertionError("L1 != L0 for getChromsizes")
     return None
@@ -102,6 +138,9 @@ def _makebins_cli(case):
     with open(p, "w") as f:
         for c, L in enumerate(sizes):
             f.write(f"{gen.chromname(c)}\t{L}\n")
+    # an earlier read of the SAME file with the default name filter in the same process must not change what makebins /
+    # parse_bins see (they read every name, in file order)
+    impl(util.read_chromsizes, p)
     r = CliRunner().invoke(cli, ["makebins", p, str(b)])
     if r.exit_code != 0:
         return {"mismatch": True, "impl": f"exit {r.exit_code}", "output": r.output[-300:]}
@@ -112,6 +151,11 @@ def _makebins_cli(case):
     from cooler.cli._util import parse_bins
     cs2, bins2 = impl(parse_bins, f"{p}:{b}")
     got2 = gen.df_bins(bins2, [gen.chromname(c) for c in range(len(sizes))])
+    allnames = impl(util.read_chromsizes, p, all_names=True)
+    if [str(k) for k in allnames.index] != [gen.chromname(c) for c in range(len(sizes))] or [int(v) for v in allnames.values] != sizes:
+        os.unlink(p)
+        return {"mismatch": True, "what": "read_chromsizes(all_names=True) is not the file's table in file order",
+                "impl": [[str(k), int(v)] for k, v in allnames.items()]}
     os.unlink(p)
     if got != m["model"] or got2 != m["model"] or [int(x) for x in cs2.values] != sizes:
         return {"mismatch": True, "impl_cli": got, "impl_parse_bins": got2, "model": m["model"]}
